@@ -23,19 +23,16 @@ def interpret_gate(ctx, fn, file, cls, facts, catalog):
     """Run the gate function (sa/interp.py, fail closed) on abstract facts: get_query_info answers `facts`, the catalog is `catalog`, the rewrite and add_step are
     recorded.  -> dict(result=value, effects=[(callee, args)], query=the analysed query stand-in)"""
     effects = []
-    planner = Obj('QueryPlanner', integrations=catalog, plan=Obj('QueryPlan'), query=Obj('Select', _own=True), default_namespace='mindsdb')
     query = Obj('Select', _analysed=True)
 
-    def add_step(it, step):
+    def add_step(step):
         effects.append(('add_step', [step]))
-        st = Obj('AddedStep', step=step)
-        return st
-    info = lambda it, q: {k: (set(v) if isinstance(v, set) else list(v)) for k, v in facts.items()}
+        return Obj('AddedStep', step=step)
+    # the stand-ins of what the gate consults are attributes of the planner stand-in itself, so it does not matter under which name the code reaches them
+    planner = Obj('QueryPlanner', integrations=catalog, plan=Obj('QueryPlan', add_step=add_step), query=Obj('Select', _own=True), default_namespace='mindsdb',
+                  get_query_info=lambda q: {k: (set(v) if isinstance(v, set) else list(v)) for k, v in facts.items()},
+                  prepare_integration_select=lambda *a: effects.append(('prepare_integration_select', list(a))))
     stubs = {'FetchDataframeStep': lambda it, *a, **k: Obj('FetchDataframeStep', _pos=a, **k)}
-    for pre in ('self', 'self.planner'):
-        stubs[f'{pre}.get_query_info'] = info
-        stubs[f'{pre}.prepare_integration_select'] = lambda it, *a: effects.append(('prepare_integration_select', list(a)))
-        stubs[f'{pre}.plan.add_step'] = add_step
     it = Interp.for_file(ctx.src, file, {}, stubs, also=(PJ, QP))
     self_ = planner if cls == 'QueryPlanner' else Obj('PlanJoin', planner=planner)
     try:
@@ -131,14 +128,13 @@ def run(ctx):
     for answer in ('int1', None):
         effects = []
         query = Obj('Select', _analysed=True)
-        planner = Obj('QueryPlanner', plan=Obj('QueryPlan'), integrations={'int1': {}})
 
-        def add_step(it, step):
+        def add_step(step):
             effects.append(('add_step', [step]))
             return Obj('AddedStep', step=step)
+        planner = Obj('QueryPlanner', plan=Obj('QueryPlan', add_step=add_step), integrations={'int1': {}},
+                      prepare_integration_select=lambda *a: effects.append(('prepare_integration_select', list(a))))
         stubs = {'self.check_single_integration': lambda it, q: (effects.append(('gate', [q])), answer)[1],
-                 'self.planner.prepare_integration_select': lambda it, *a: effects.append(('prepare_integration_select', list(a))),
-                 'self.planner.plan.add_step': add_step,
                  'self.is_timeseries': lambda it, q: False,
                  'FetchDataframeStep': lambda it, *a, **k: Obj('FetchDataframeStep', _pos=a, **k),
                  'PlanJoinTSPredictorQuery': lambda it, *a: Delegate('PlanJoinTSPredictorQuery', effects),
